@@ -7,7 +7,10 @@
 //! Exit codes — run: 0 all asserts hold, 3 some assert fails, 2 malformed input / internal error.
 //!              search: 1 HIT, 0 NO-HIT, 2 usage / internal error.
 
+mod exact;
+mod gen2;
 mod oracles;
+mod props;
 mod run;
 mod search;
 
@@ -17,8 +20,9 @@ use std::panic::{catch_unwind, AssertUnwindSafe};
 
 const USAGE: &str = "usage:
   ats-replay run <history.json> [--quiet]
-  ats-replay search --oracle <name|all> --seed <u64> --iters <n> [--max-steps k] [--out <file.json>] [--profile default|convertible|fees|nonlot|markers] [--stats]
-  ats-replay oracles        (list oracle names)";
+  ats-replay search --oracle <name|all|new> --seed <u64> --iters <n> [--max-steps k] [--out <file.json>]
+                    [--profile default|convertible|fees|nonlot|markers|auth|config|admission|match|migration|instantiate|auto] [--stats]
+  ats-replay oracles [--profiles]   (list oracle names [and the search profiles registered for each])";
 
 fn main() {
     run::install_panic_hook();
@@ -38,8 +42,13 @@ fn real_main(args: &[String]) -> i32 {
         Some("run") => cmd_run(&args[1..]),
         Some("search") => search::cmd_search(&args[1..]),
         Some("oracles") => {
+            let with_profiles = args.iter().any(|a| a == "--profiles");
             for o in oracles::ORACLES {
-                println!("{o}");
+                if with_profiles {
+                    println!("{o}: {}", search::profiles_for(o).join(" "));
+                } else {
+                    println!("{o}");
+                }
             }
             0
         }
